@@ -109,6 +109,65 @@ def _aim_group(rng, view, g, p, v, suffixed, aggs, extra=None):
         g['in_tree'] = rng.choice(view.tree[view.top[p]])
 
 
+def _aim_exclusion(rng, view, q):
+    """exclusion boundary: the unsuffixed group asks for classes supplied by
+    two different providers usable from one tree and forbids an aggregate
+    (or a trait) that exactly one of the two suppliers carries - the request
+    must then be served by other suppliers or not at all.  Prefers a
+    supplier that is the only one of its class among the providers usable
+    from its tree, is not a root (an aggregate on a root spans the tree),
+    and whose class is also supplied elsewhere."""
+    v = q['version']
+    g = q['groups']['']
+    by_agg = v >= 32 and rng.random() < 0.75
+    if not by_agg and v < 22:
+        return
+    mark = view.aggs if by_agg else {
+        u: view.traits[u] - {TRAITS[0]} for u in view.rps}
+    sits = []
+    for r in view.roots:
+        usable = view.usable(r)
+        sup = [u for u in usable if view.inv[u]]
+        for x in sup:
+            for y in sup:
+                if y == x or not set(view.inv[y]) - set(view.inv[x]):
+                    continue
+                for rc in view.inv[x]:
+                    for m in sorted(mark[x] - mark[y]):
+                        score = 0
+                        if all(rc not in view.inv[o] or m in mark[o]
+                               for o in sup if o != x):
+                            score += 2    # excluding m empties r for rc
+                        if m not in mark[r] and m not in mark[view.top[y]]:
+                            score += 2    # (an aggregate on a root spans it)
+                        if any(rc in view.inv[o] and m not in mark[o] and
+                               m not in mark[view.top[o]]
+                               for o in view.rps if o not in usable):
+                            score += 2    # rc still available elsewhere
+                        sits.append((score, r, x, y, rc, m))
+    if not sits:
+        return
+    best = max(s[0] for s in sits)
+    if rng.random() < 0.8:
+        sits = [s for s in sits if s[0] >= best]
+    _, r, x, y, rc, m = rng.choice(sits)
+    rx = {c: a for c, a in fitting_resources(rng, view, x, 9).items()
+          if c == rc}
+    ry = {c: a for c, a in fitting_resources(rng, view, y, 9).items()
+          if c not in view.inv[x]}
+    if not rx or not ry:
+        return
+    items = list(rx.items()) + [rng.choice(sorted(ry.items()))]
+    rng.shuffle(items)
+    g['resources'] = dict(items)
+    if by_agg:
+        g['forbidden_aggs'] = {m}
+        g['member_of'] = []
+    else:
+        g['forbidden'] = {m}
+        g['required'] = []
+
+
 def gen_ac_query(rng, world, version=None, view=None):
     q = _gen_ac_query(rng, world, version)
     if view is None or not view.roots:
@@ -144,6 +203,8 @@ def gen_ac_query(rng, world, version=None, view=None):
         if not q['root_required'] and not q['root_forbidden']:
             if TRAITS[0] not in view.traits[r]:
                 q['root_forbidden'] = {TRAITS[0]}
+    if '' in q['groups'] and rng.random() < 0.1:
+        _aim_exclusion(rng, view, q)
     # normalise: a term wholly covered by forbidden traits is a 400
     for g in q['groups'].values():
         g['required'] = [t for t in g['required']
@@ -154,6 +215,26 @@ def gen_ac_query(rng, world, version=None, view=None):
             g['required'] = [{TRAITS[1]}]
             g['forbidden'] = set()
     q['root_forbidden'] -= q['root_required']
+    return q
+
+
+def gen_exclusion_query(rng, world, view):
+    """a small query aimed at an exclusion boundary (see _aim_exclusion):
+    one unsuffixed group over two suppliers of one tree, forbidding a mark
+    of one of them; sometimes one more suffixed group rides along"""
+    v = rng.choice([22, 24, 29, 32, 32, 33, 34, 36, 39, 39])
+    q = {'version': v, 'groups': {'': new_group()}, 'group_policy': None,
+         'root_required': set(), 'root_forbidden': set(),
+         'same_subtree': [], 'limit': None}
+    _aim_exclusion(rng, view, q)
+    if not q['groups']['']['resources']:
+        q['groups']['']['resources'] = gen_resources(rng, world.classes)
+    if v >= 25 and rng.random() < 0.25:
+        g = new_group()
+        g['resources'] = gen_resources(rng, world.classes, 1)
+        q['groups'][rng.choice(['1', '2', '_x'] if v >= 33 else ['1', '2'])] = g
+        if rng.random() < 0.5:
+            q['group_policy'] = rng.choice(['none', 'isolate'])
     return q
 
 
